@@ -91,7 +91,7 @@ def run(rep):
     rep.floor("RevocationPair construction sites", len(sites), 1)
     done = set()
     for b, bi, s in sites:
-        root = root_body(prog, b)
+      for root in owners_of(prog, b):
         if root.id in done:
             continue
         done.add(root.id)
